@@ -59,7 +59,19 @@ class World(object):
             cfg_.origin = tuple(sgn * 4.0 - x / 2 for x in dxf)
         lat = lattice.Lattice(sc["mesh"], sc["n1"], sc["n2"], axes=axes, ext0=[3, 4, 5][cfgseed % 3], ext_cut=(cfgseed // 3) % 2 == 1)
         ap = lat.ap("A", FIELDS, files_of=lambda lv, b: rng.randint(1, 2), shuffle=lambda lv, f, v: rng.sample(v, len(v)))
-        flds = lattice.Fields(lat, cfgseed, payload="tame")
+        # fields of very different magnitudes side by side (mass fraction of a radical ~1e-12 next to an enthalpy ~1e12), and
+        # one field (f4) with nan / inf cells scattered through it: what one field holds must not reach the answer for another
+        def scaled(fi, factor):
+            return lambda lv, shape: factor * gamma.token_array(cfgseed, ("lat", lv, fi), int(np.prod(shape)), "tame").reshape(shape)
+
+        def holed(lv, shape):
+            a = gamma.token_array(cfgseed, ("lat", lv, 5), int(np.prod(shape)), "tame").reshape(shape).copy()
+            pick = np.random.default_rng(cfgseed + lv).random(shape)
+            a[pick < 0.05] = np.nan
+            a[(pick >= 0.05) & (pick < 0.08)] = np.inf
+            return a
+        special = {4: scaled(4, 1e-12), 5: holed, 6: scaled(6, 1e12), 7: scaled(7, 1e-6)} if cfgseed % 2 else {}
+        flds = lattice.Fields(lat, cfgseed, payload="tame", special=special)
         d = os.path.join(self.chk.tmp(), "p")
         os.makedirs(os.path.dirname(d))
         gamma.write_plotfile(d, ap, cfg_, values=flds.values)
@@ -115,8 +127,10 @@ def run_scenario(chk, world, sc, cfgseed, axes, sel):
             return "query %r returned %d values for %d fields" % (sel, got.shape[0], len(fis))
         for g, fi in zip(got, fis):
             want = float(flds.level(l, fi)[tuple(idx)])
+            if not np.all(np.isfinite(flds.level(l, fi))):
+                continue          # a field with nan / inf cells: its own spline is undefined, only the OTHER fields are judged
             scale = float(np.max(np.abs(flds.level(l, fi))))
-            if not abs(g - want) <= 1e-9 * max(1.0, scale):
+            if not abs(g - want) <= 1e-9 * scale:
                 return "query %d of %d on one selector (%r) at the centre of level-%d cell %r (origin %r): %r, stored value %r" % (
                     qi + 1, len(sc["asked"]), sel, l, idx, cfg_.origin, float(g), want)
     return None
